@@ -49,6 +49,13 @@ class LogMap(dict):
 # request / response scripts
 # ---------------------------------------------------------------------------
 def request_bytes(r):
+    """(head bytes, body bytes) of request r; r["lead"] = n puts n stray CRLFs in front of the request line (what
+    a sloppy client leaves behind a body: the server reads them as an empty message and drops it)"""
+    h, b = _request_bytes(r)
+    return b"\r\n" * r.get("lead", 0) + h, b
+
+
+def _request_bytes(r):
     """r: dict(k, kind, ...) -> (head bytes, body bytes).  kinds:
     plain | body | chunked | expect | expect_nobody | close | http10 | http10_ka | head |
     bad (malformed -> 400) | garbage | partial (head never finished)"""
@@ -66,6 +73,12 @@ def request_bytes(r):
     if kind == "chunked":
         cb = b"%x\r\n%s\r\n0\r\n\r\n" % (len(body), body)
         return ("POST %s HTTP/1.1\r\nHost: t\r\nX-K: %d\r\nTransfer-Encoding: chunked\r\n%s\r\n" % (path, k, extra)).encode(), cb
+    if kind in ("te_cl", "te_cl_empty"):
+        # Transfer-Encoding together with a Content-Length field (RFC 9112 6.1: the connection must be closed after
+        # the response); the field value is empty in the second kind
+        cb = b"%x\r\n%s\r\n0\r\n\r\n" % (len(body), body)
+        return ("POST %s HTTP/1.1\r\nHost: t\r\nX-K: %d\r\nContent-Length:%s\r\nTransfer-Encoding: chunked\r\n%s\r\n" % (
+            path, k, " %d" % len(cb) if kind == "te_cl" else "", extra)).encode(), cb
     if kind == "expect":
         # (the expectation is a case-insensitive token: r["expect_value"] spells it differently)
         return ("POST %s HTTP/1.1\r\nHost: t\r\nX-K: %d\r\nExpect: %s\r\nContent-Length: %d\r\n%s\r\n" % (path, k, r.get("expect_value", "100-continue"), len(body), extra)).encode(), body
@@ -96,7 +109,7 @@ def request_bytes(r):
 
 METHOD = {"plain": "GET", "head": "HEAD", "body": "POST", "chunked": "POST", "expect": "POST",
           "expect_nobody": "GET", "expect10": "POST", "close": "GET", "http10": "GET", "http10_ka": "GET",
-          "bad": "GET", "toolarge": "POST", "garbage": "GET", "partial": "GET", "te10": "GET"}
+          "bad": "GET", "toolarge": "POST", "garbage": "GET", "partial": "GET", "te10": "GET", "te_cl": "POST", "te_cl_empty": "POST"}
 
 
 class AppIter:
@@ -146,6 +159,29 @@ class AppIter:
         self.ctx.ev({"k": "app_end", "c": self.conn, "r": self.k})
 
 
+class AppFile:
+    """what an application hands to wsgi.file_wrapper: a seekable file whose close() is observed"""
+
+    def __init__(self, ctx, conn, k, data):
+        import io
+        self.ctx, self.conn, self.k = ctx, conn, k
+        self.b = io.BytesIO(data)
+        self.closed = 0
+
+    def read(self, n=-1):
+        return self.b.read(n)
+
+    def seek(self, *a):
+        return self.b.seek(*a)
+
+    def tell(self):
+        return self.b.tell()
+
+    def close(self):
+        self.closed += 1
+        self.ctx.ev({"k": "file_closed", "c": self.conn, "r": self.k})
+
+
 class Ctx:
     exc_class = ValueError
 
@@ -157,6 +193,13 @@ class Ctx:
         from waitress.task import ThreadedTaskDispatcher
         self.S = S
         self.scn = scn
+        if getattr(S, "on_step", None) is None:
+            # (observed for the classification of findings only) the moment handle_close has left its critical section:
+            # from here on no worker can see the channel connected
+            def _on_step(name, label, self=self):
+                if label and tuple(label[:3]) == ("rel", "outbuf_lock", "handle_close"):
+                    self.ev({"k": "closing_released", "c": "c1" if len(self.chans) == 1 else "?"})
+            S.on_step = _on_step
         self.events = []
         self.kernel = Kernel()
         self.kernel.on_fault = self.on_fault
@@ -301,11 +344,24 @@ class Ctx:
         if spec.get("conn_close"):
             pass
         write = start_response(spec.get("status", "200 OK"), headers)
+        if spec.get("filewrapper"):
+            # the application's part ends with the call; the file is the server's to close
+            f = AppFile(self, conn, k, b"".join(c for c in chunks if c not in ("sync", "peer")))
+            self.ev({"k": "file_open", "c": conn, "r": k})
+            self.ev({"k": "app_end", "c": conn, "r": k})
+            return environ["wsgi.file_wrapper"](f, 8192)
         if spec.get("write"):
-            for c in chunks:
-                if S is not None and S.cur is not None:
-                    S.vo("app", "write")
-                write(c)
+            try:
+                for c in chunks:
+                    if c in ("sync", "peer"):
+                        continue
+                    if S is not None and S.cur is not None:
+                        S.vo("app", "write")
+                    write(c)
+            except BaseException:
+                # the call ends here (ClientDisconnected from write()): there is no iterable the server could close
+                self.ev({"k": "app_end", "c": conn, "r": k})
+                raise
             chunks = []
         it = AppIter(self, conn, k, chunks, spec.get("raise_at"))
         if spec.get("exc") == "OSError":
@@ -397,7 +453,12 @@ class Ctx:
             ch = self.chans.get(name)
             rs, rest, err = httpclient.parse_stream(sk.wire, self.methods(name), sk.closed)
             resp = []
+            # a body delimited by the end of the connection is complete only if the server ended the connection of its
+            # own accord: after a reset / close by the client or a send error it is legitimately cut short
+            clean = sk.closed and not sk.peer_closed and not any(e["k"] == "fault" and e.get("c") == name for e in self.events)
             for r in rs:
+                if r["framing"] == "close" and not clean:
+                    r["complete"] = False
                 xr = [v for (hn, v) in r["headers"] if hn.lower() == "x-req"]
                 conn_h = [v.lower() for (hn, v) in r["headers"] if hn.lower() == "connection"]
                 resp.append({"status": r["status"], "interim": r["interim"], "r": int(xr[0]) if xr and xr[0].isdigit() else 0,
@@ -416,8 +477,7 @@ class Ctx:
                     if (not getattr(th, "done", False) and pend and pend[0] == "wait" and pend[1] == "outbuf_lock" and tn not in ch.outbuf_lock.waiters
                             and getattr(ch.outbuf_lock.lock, "owner", None) not in (None, tn)):
                         waiting += 1
-            pre = b"HTTP/1.1 "
-            cut_head = bool(rest) and (rest[:9] == pre[:len(rest[:9])]) and b"\r\n\r\n" not in rest
+            cut_head = bool(rest) and any(rest[:9] == pre[:len(rest[:9])] for pre in (b"HTTP/1.1 ", b"HTTP/1.0 ")) and b"\r\n\r\n" not in rest
             conns.append({"c": name, "accepted": ch is not None, "resp": resp, "garbage": 0 if cut_head else len(rest),
                           "cut_head": cut_head, "wire_error": err or "",
                           "closed": sk.closed, "nclose": len(sk.close_calls), "in_map": sk.fd in self.map,
